@@ -15,6 +15,10 @@ add("C12", E1,
     "Runtime monitor: the real RpkiTable is driven with every single-VRP table x route x origin of three 5-bit sub-spaces (complete), sampled VRP pairs, random VRP sets over the real address space and insert/remove/drop/reset histories; each result is compared with a brute-force RFC 6811 oracle. Held on the executions listed in the evidence, nothing more.",
     "Trusted: the 20-line brute-force covering/validity oracle; clean host bits in VRPs; AS_SET-tail origin accepted as NONE or local AS.",
     "runtime monitoring: reference-model oracle over generated inputs and histories (debug+release, Miri slice)")
+add("C01", E2,
+    "Runtime monitor: real TableManager + real PeerSession (on_established, handle_prefix_update, do_route_refresh, flush_tx) over a loopback TCP pair; seeded histories of announce / withdraw / peer-down / GR stale+purge / LLGR mark+purge / next-hop flap / export-policy change + soft reset out / import-policy change + soft reset in / route refresh, interleaved with partial event delivery and flushes, for all 5 neighbour roles, Add-Path send-max 1-3, 1/2/4 shards, observer optionally a source itself. Bytes read from the client socket are decoded by the peer-side codec into a mirror Adj-RIB-In; at each quiescent check point the mirror must equal what a brand-new session with identical parameters is sent (which then becomes the next observer). Failing histories are delta-debugged.",
+    "Trusted: the peer-side decode (repo codec, negotiate(remote,local)) and the quiescence procedure (KEEPALIVE sentinel through the same socket). Sequential histories; source peers are TableManager calls in the daemon's own call order.",
+    "runtime monitoring: differential oracle (incremental view vs fresh-session dump) over generated histories with delivery/flush interleavings")
 add("C05", E1,
     "Runtime monitor (packet level): valid UPDATE templates (legacy + MP families, eBGP/iBGP/confed, 2-/4-octet AS, ADD-PATH) are corrupted by a recording RFC 7606 fault engine (flags, length, value, duplication, omission, unknown well-known, truncation, iBGP-only attributes on eBGP, MP faults; up to 4 faults per UPDATE) and pushed through the real try_parse + validate_message; an oracle computed from the fault record and an independent TLV walk decides never-installs / treat-as-withdraw / discard / withdrawals-survive / reset-only-if-must / ebgp-filter / no-panic. Debug+release; Miri slice in thorough.",
     "Trusted: the fault classification (Benign/Discardable/MustWithdraw) written from the statement + RFC 7606; where RFC 7606 leaves a choice every permitted outcome is accepted (listed in the evidence assumptions). The end-to-end RIB half is not part of this check yet.",
